@@ -630,6 +630,11 @@ def oracle_c04(sc, obs):
     registered, held = set(), set()
     created_at = {}
     model_of = {ev[1]: ev[2] for ev in tr if ev[0] == "create"}
+    for l, o in zip(sc.lines, obs):
+        if o.startswith("err Unexpected") and l.split()[0] in ("do", "shuffle_do", "map", "gdo", "gmap"):
+            # the harness' own callback raised: it was not called as callback(agent, *args, **kwargs)
+            bad.append(f"args: `{l}` raised {o.split()[-1]} inside the activation: the callable was not invoked as "
+                       f"callable(agent, *args) with the arguments passed through unchanged")
     for line, events, st in split_ops(tr):
         call = None
         invoked, order_seen = [], []
